@@ -3,8 +3,8 @@
    Print Assumptions follows every theorem.  abs_of_batch is a function of the batch and the norm function only: the model has no pool and no map; what remains to show is that the places where Go's map iteration order enters cannot matter. *)
 
 From Coq Require Import List NArith Bool Sorting Permutation.
-From Ice Require Import Base Spec Postings Builder Pool.
-From IceProofs Require Immut_Proofs Build_Proofs Builder_Proofs Pool_Proofs.
+From Ice Require Import Base Spec Postings Builder Pool IntCoder DvWriter Units.
+From IceProofs Require Immut_Proofs Build_Proofs Builder_Proofs Pool_Proofs Units_Proofs.
 Import ListNotations.
 Open Scope N_scope.
 
@@ -160,3 +160,28 @@ Example build_from_example :
     Builder_Proofs.exb_batch <> Ok Builder_Proofs.exb_result.
 Proof. exact @Pool_Proofs.build_from_example. Qed.
 Print Assumptions build_from_example.
+
+(* whatever a chunkedIntCoder went through before, Reset followed by SetChunkSize leaves it in the state of a new coder: the rest of any script gives the same transcript (the coder-level form of independence from history; this model is run against the real coder on every check) *)
+Theorem intcoder_reuse_like_new :
+    forall (c c' : coder) (cs m : N) (ops : list cop),
+    coder_new cs m = Ok c' ->
+    run_intcoder (Some c) (CReset :: CSetChunkSize cs m :: ops) = 0 :: 0 :: run_intcoder (Some c') ops.
+Proof. exact @Units_Proofs.run_intcoder_reset_setChunkSize. Qed.
+Print Assumptions intcoder_reuse_like_new.
+
+(* the same for the doc-value coder reused from field to field: after Reset the rest of any script behaves as on a fresh coder *)
+Theorem contentcoder_reuse_like_new :
+    forall (cs max : N) (c0 c : Coder) (ops : list cop),
+    cc_new cs max = Ok c0 ->
+    Units_Proofs.cc_shape cs (length (cc_chunkLens c0)) c ->
+    run_contentcoder (Some c) (CReset :: ops) = 0 :: run_contentcoder (Some c0) ops.
+Proof. exact @Units_Proofs.run_contentcoder_reset. Qed.
+Print Assumptions contentcoder_reuse_like_new.
+
+(* new; Add...; Close; Write; Reset gives back exactly the fresh coder *)
+Theorem cc_reuse_like_fresh :
+    forall (cs max : N) (c0 c1 c2 : Coder) (es : list (N * bytes)),
+    cc_new cs max = Ok c0 ->
+    cc_adds c0 es = Ok c1 -> cc_close c1 = Ok c2 -> cc_reset (cc_after_write c2) = c0.
+Proof. exact @Units_Proofs.cc_reuse_like_fresh. Qed.
+Print Assumptions cc_reuse_like_fresh.
